@@ -488,11 +488,14 @@ func (d raceDrop) ToLiquid() any { return d.v }
 func C04RaceProg(tier string, i int) {
 	progs := c04RacePrograms(tier)
 	p := progs[i]
-	eng := liquid.NewEngine()
-	eng.RegisterFilter("y", func(v any) any { return v })
-	eng.RegisterTag("y", func(c render.Context) (string, error) { return "", nil })
-	if _, err := eng.ParseTemplateAndCache([]byte("inc[{% assign x = 'i' %}{{ x }}{% for i in l %}{% cycle '1', '2' %}{% endfor %}]"), c04IncName, 1); err != nil {
-		panic(err)
+	newEngine := func() *liquid.Engine {
+		eng := liquid.NewEngine()
+		eng.RegisterFilter("y", func(v any) any { return v })
+		eng.RegisterTag("y", func(c render.Context) (string, error) { return "", nil })
+		if _, err := eng.ParseTemplateAndCache([]byte("inc[{% assign x = 'i' %}{{ x }}{% for i in l %}{% cycle '1', '2' %}{% endfor %}]"), c04IncName, 1); err != nil {
+			panic(err)
+		}
+		return eng
 	}
 	n := 5
 	shared := map[string]any{
@@ -500,24 +503,35 @@ func C04RaceProg(tier string, i int) {
 		"d": raceDrop{map[string]any{"k": 1, "l": []any{2, 1}}}, "dl": []any{raceDrop{1}, &univ.PDrop{V: "s"}},
 		"st": univ.Plain{A: 1, C: []any{2, 1}}, "pst": &univ.Plain{A: 2, C: []any{1}}, "pint": &n,
 	}
-	var tpls []*liquid.Template
+	// the sequential baseline is computed on an engine of its own, so that every concurrent phase
+	// below starts on a cold engine (lazily built engine-wide state is raced on its first use)
 	var solo []string
-	for _, s := range p.srcs {
-		t, err := eng.ParseString(s)
-		if err != nil {
-			fmt.Println("PARSEERR", err)
-			tpls = append(tpls, nil)
-			solo = append(solo, "")
-			continue
+	{
+		base := newEngine()
+		for _, s := range p.srcs {
+			t, err := base.ParseString(s)
+			if err != nil {
+				solo = append(solo, "ERR("+err.Error()+")")
+				continue
+			}
+			out, rerr := t.Render(shared)
+			solo = append(solo, Outcome{Out: string(out), Err: rerr}.Sig())
 		}
-		tpls = append(tpls, t)
-		out, rerr := t.Render(shared)
-		solo = append(solo, Outcome{Out: string(out), Err: rerr}.Sig())
 	}
 	runs := 0
 	for _, procs := range []int{1, 4, 16} {
 		runtime.GOMAXPROCS(procs)
 		for _, goroutines := range []int{2, 8, 32} {
+			eng := newEngine()
+			var tpls []*liquid.Template
+			for _, s := range p.srcs {
+				t, err := eng.ParseString(s)
+				if err != nil {
+					tpls = append(tpls, nil)
+					continue
+				}
+				tpls = append(tpls, t)
+			}
 			var wg sync.WaitGroup
 			start := make(chan struct{})
 			var mu sync.Mutex
@@ -559,7 +573,7 @@ func C04RaceProg(tier string, i int) {
 	fmt.Printf("RUNS %d\n", runs)
 }
 
-var raceFrameRe = regexp.MustCompile(`(?m)^  (github\.com/osteele/liquid[^\s(]*)\(`)
+var raceFrameRe = regexp.MustCompile(`(?m)^  (github\.com/osteele/liquid[^\n]*?)\([^()\n]*\)$`)
 
 // c04ParseRaces returns one key per race report: the first repository frame of each of the two accesses.
 func c04ParseRaces(stderr string) []string {
